@@ -24,6 +24,10 @@ RULE = ("programs = (a) every kernel kind of curated + random-grammar problems, 
         "the optimiser actually rewrote the program; distinct by program text")
 
 FLOATS_DYADIC = (0.0, 1.0, -1.0, 0.5, 2.0, -2.5, 3.0)
+NEIGHBOUR_LITERALS = (0.0, 1.0, 1.0000000001, 0.9999999999, 1.0000000000000002, 0.9999999999999999, 1e-12, -1e-12, 5e-324, -1.0, -1.0000000001, 1.5, 2.0)
+NEIGHBOUR_ASSIGNMENTS = ["a(i) = b(i) * 1.0000000001", "a(i) = 0.9999999999 * b(i) + c(i)", "a(i) = b(i) + 0.000000000001", "a(i) = b(i) * 1.0000000000000002 * c(i)",
+                         "a(i) = (b(i) + 0.0000000000000000000000001) * c(i)", "a(i) = b(i) - 1.0000000001 * c(i)", "a(i) = b(i) * 0.1 * 3.0", "a(i) = 2.5 * (0.1 * b(i))",
+                         "a() = b(i) * 1.0000000001", "A(i,j) = B(i,j) * 0.9999999999 + 0.000000001"]
 FLOATS_ANY = (0.003, 0.1, -0.7, 1.0 / 3.0, 0.006, 1e16 + 2.0, 123456.789, -1e-3, 2.5, 0.0)
 
 PLAN = {
@@ -219,7 +223,12 @@ def shard(rec, tier, index, n_shards):
     n_trees = plan["trees"] // n_shards
     for t in range(n_trees):
         stmt = t % 3 != 0
-        P = irgen.statement_program(rng, early_return=0.06 if t % 2 else 0.0) if stmt else irgen.expression_program(rng)
+        # every fourth tree draws its float literals from the NEIGHBOURS of the identity elements the rules compare
+        # with (a rule that fires for "almost 1.0" or "almost 0.0" changes the value)
+        kw = {"float_literals": NEIGHBOUR_LITERALS} if t % 4 == 1 else {}
+        if kw:
+            rec.count("trees_with_neighbour_literals")
+        P = irgen.statement_program(rng, early_return=0.06 if t % 2 else 0.0, **kw) if stmt else irgen.expression_program(rng, **kw)
         Q = peephole_function_definition(P)
         rec.count("programs")
         rec.evaluated()
@@ -256,6 +265,10 @@ def shard(rec, tier, index, n_shards):
     try:
         cases = list(engine.curated_cases(rng, plan["fmt"], plan["inp"]))[index::n_shards]
         cases += list(engine.random_cases(rng, plan["rnd"] // n_shards, 1))
+        for text in NEIGHBOUR_ASSIGNMENTS[index::n_shards] if tier == "quick" else NEIGHBOUR_ASSIGNMENTS:
+            target, tree = gen.parse(text)
+            for _ in range(3):
+                cases.append(engine.build_case(rng, target, tree, None, values=gen.ULP + gen.DYADIC + [1e10, 3.0, 7.0], origin="neighbour-literals", sizes_pool=[3, 4]))
         for case in cases:
             try:
                 problem = engine.make_problem(case)
